@@ -56,17 +56,23 @@ let run (t : string list) : string =
            let ((recd, newi), _) = EventId.lifetime sh ids1 (nat_of_int (int_of_string k2)) (readings rs2) in
            "A " ^ join ids1 ^ " R " ^ join recd ^ " N " ^ join newi
        | _ -> "BADCASE")
-  | "eid_engine" :: rest ->
-      (* one shard (id 0); rows = (x, id) in apply order, de-duplicated by id, sorted by x *)
+  | "eid_engine" :: _flush :: rest ->
+      (* one shard (id 0); rows = (x, id) in apply order, de-duplicated by id. A FLUSH before the restart
+         moves the first lifetime's rows from WAL/memtable to a segment; the set of rows reaching the
+         response writer is the same. *)
       (match split_slash rest with
        | [k1 :: rs1; k2 :: rs2] ->
            let k1 = nat_of_int (int_of_string k1) and k2 = nat_of_int (int_of_string k2) in
            let sh = n_of_int 0 in
            let hist = EventId.restart_history sh k1 (readings rs1) k2 (readings rs2) in
            let vis = EventId.visible_after_restart sh k1 (readings rs1) k2 (readings rs2) in
-           let vis = Stdlib.List.sort (fun (a, _) (b, _) -> Z.compare (zt_of_n a) (zt_of_n b)) vis in
-           Printf.sprintf "Q stored=%d returned=%d x=%s ids=%s" (Stdlib.List.length hist) (Stdlib.List.length vis)
-             (join (Stdlib.List.map fst vis)) (join (Stdlib.List.map snd vis))
+           let zs l = Stdlib.List.map zt_of_n l in
+           let ids = Stdlib.List.sort Z.compare (zs (Stdlib.List.map snd vis)) in
+           let rec incr = function a :: (b :: _ as r) -> Z.lt a b && incr r | _ -> true in
+           let complete = Stdlib.List.length vis = Stdlib.List.length hist in
+           Printf.sprintf "Q stored=%d returned=%d ids=%s order=%s" (Stdlib.List.length hist) (Stdlib.List.length vis)
+             (if ids = [] then "-" else Stdlib.String.concat "," (Stdlib.List.map Z.to_string ids))
+             (if not complete then "?" else if incr (zs hist) then "increasing" else "not_increasing")
        | _ -> "BADCASE")
   | "eid_synth" :: rest ->
       let zones = split_slash rest in
